@@ -492,6 +492,7 @@ func (l *log) delete(offsets map[int64]struct{}) ([]Message, int64, error) {
 		if err := rs.Remove(); err != nil {
 			return nil, 0, err
 		}
+		vhook.At("delete.retry")
 		return l.delete(offsets)
 	}
 
